@@ -69,6 +69,10 @@ def params_reach(t, st, acc=None, seen=None):
     return acc
 
 
+# requests whose documented normal form keys the node on projections of an argument (judged by the rule that owns the normal form)
+NORMAL_FORMS = (('ipr::impl::type_factory::get_qualified(', 1,
+                 'a qualified operand is flattened: the node is keyed on its main variant and the union of the sets (C11.merge)'),)
+
 INJECTIVE_CALLS = ('characters', 'rep', 'intern', 'begin', 'end', 'cbegin', 'cend', 'operand', 'get', 'basic_string_view', 'data',
                    'length', 'size')
 
@@ -847,7 +851,7 @@ class KeyChecker:
                     if all(any(contains(t, core(subst(c))) for _h, t in how_terms) for c in comps):
                         continue
                 inst = contracts.short(contracts.fn_qname(fid)) + '(' + ', '.join(contracts.short(q['t']) for q in f['params']) + ')/' + str(f['params'][p]['name'] or p)
-                why = [w for (suffix, idx, w) in allow if fid.startswith(suffix) and idx == p]
+                why = [w for (suffix, idx, w) in tuple(allow) + NORMAL_FORMS if fid.startswith(suffix) and idx == p]
                 if why:
                     self.ck.note(f'{inst}: keyed through {sorted(how)} by design: {why[0]}')
                     continue
